@@ -6,6 +6,8 @@ import (
 	"strconv"
 	"time"
 	"unsafe"
+
+	"github.com/unravelin/null"
 )
 
 // TyDef mirrors the model's `TyDef` (lean/Plenc/Build.lean).
@@ -55,6 +57,23 @@ var badTypes = map[string]reflect.Type{
 
 var timeType = reflect.TypeOf(time.Time{})
 
+// library struct types known by name (package null)
+var extTypes = map[string]reflect.Type{
+	"null.Int":    reflect.TypeOf(null.Int{}),
+	"null.Bool":   reflect.TypeOf(null.Bool{}),
+	"null.Float":  reflect.TypeOf(null.Float{}),
+	"null.String": reflect.TypeOf(null.String{}),
+	"null.Time":   reflect.TypeOf(null.Time{}),
+}
+
+// extPayload: the payload type of a null.X (the model treats null.X as a pointer to it)
+var extPayload = map[string]*TyDef{
+	"null.Int": {K: "int64"}, "null.Bool": {K: "bool"}, "null.Float": {K: "f64"},
+	"null.String": {K: "str"}, "null.Time": {K: "time"},
+}
+
+func Ext(name string) *TyDef { return &TyDef{K: "ext", Name: name} }
+
 func isBasic(k string) bool { _, ok := basicTypes[k]; return ok }
 
 func B(k string) *TyDef           { return &TyDef{K: k} }
@@ -80,6 +99,8 @@ func (t *TyDef) Sexp() *Sexp {
 		return L(A("map"), t.Key.Sexp(), t.Elem.Sexp())
 	case "bad":
 		return L(A("bad"), A(t.Name))
+	case "ext":
+		return L(A("ext"), A(hxs(t.Name)))
 	case "struct":
 		items := []*Sexp{A("struct"), A(hxs(t.Name))}
 		for _, f := range t.Fields {
@@ -130,6 +151,12 @@ func parseTyDef(s *Sexp) (*TyDef, error) {
 		return &TyDef{K: "map", Key: k, Elem: e}, nil
 	case "bad":
 		return &TyDef{K: "bad", Name: s.List[1].Atom}, nil
+	case "ext":
+		n, err := unhx(s.List[1].Atom)
+		if err != nil {
+			return nil, err
+		}
+		return &TyDef{K: "ext", Name: string(n)}, nil
 	case "struct":
 		n, err := unhx(s.List[1].Atom)
 		if err != nil {
@@ -217,6 +244,12 @@ func (t *TyDef) RT() (rt reflect.Type, err error) {
 			return nil, err
 		}
 		return reflect.MapOf(k, e), nil
+	case "ext":
+		et, ok := extTypes[t.Name]
+		if !ok {
+			return nil, fmt.Errorf("unknown ext type %q", t.Name)
+		}
+		return et, nil
 	case "bad":
 		bt, ok := badTypes[t.Name]
 		if !ok {
@@ -263,6 +296,11 @@ func fieldEncoded(f *FieldDef) bool {
 func FromRT(rt reflect.Type, depth int) *TyDef {
 	if rt == timeType {
 		return &TyDef{K: "time", rt: rt}
+	}
+	for n, et := range extTypes {
+		if rt == et {
+			return &TyDef{K: "ext", Name: n, rt: rt}
+		}
 	}
 	named := rt.Name() != "" && rt.PkgPath() != ""
 	var under *TyDef
